@@ -37,7 +37,7 @@ man = {
     "setup_cmd": "./setup.sh",
     "hooks": {
         "guard": "cargo feature `verif-hooks` of crate oxidize-pdf (off by default)",
-        "enable": "harness/Cargo.toml depends on oxidize-pdf by path (/repo/oxidize-pdf-core) with features=[\"verif-hooks\"]; every ./check rebuilds it with `cargo build --profile verif --offline`",
+        "enable": "harness/Cargo.toml depends on oxidize-pdf by path (/repo/oxidize-pdf-core) with features=[\"verif-hooks\", \"semantic\"] (semantic is an existing library feature that makes RagChunk serialisable; only verif-hooks guards instrumentation); every ./check rebuilds it with `cargo build --profile verif --offline`",
         "baseline_off_cmd": "cd /repo && cargo nextest run --workspace --no-fail-fast --test-threads 8 --offline",
         "source_commits": list(reversed(hooks_commits)),
         "add_only": True,
